@@ -67,6 +67,8 @@ class Py2CppModel:
 	# -- render sites ------------------------------------------------------------------------------------------------
 
 	def render_sites(self) -> list[RenderSite]:
+		if getattr(self, '_render_sites', None) is not None:
+			return self._render_sites
 		sites = []
 		for name, f in self.methods.items():
 			if name == 'render':
@@ -84,6 +86,7 @@ class Py2CppModel:
 					s = RenderSite(f, n, tmpl, vars_expr)
 					self._resolve(s)
 					sites.append(s)
+		self._render_sites = sites
 		return sites
 
 	def _enum_members(self, dotted: str) -> set[str] | None:
